@@ -140,6 +140,14 @@ def bounded(params):
             if got != base and len(failures) < 5:
                 diff = {k: (base.get(k), got.get(k)) for k in set(base) | set(got) if base.get(k) != got.get(k)}
                 failures.append({"input": {"transform": "pad-all-axes (singleton axis)", "input_type": it, "pred": pred.tolist(), "ref": ref.tolist()}, "problems": [str(diff)[:300]], "replay_kind": "c10.e2e"})
+    # matching must not depend on label numbering (which follows the scan order and so the orientation): nearly equal competing
+    # candidates are ordered by their exact scores
+    from . import c03 as _c03
+    for mname_ in ("IOU", "DSC"):
+        sr = _c03.scorer({"metric": mname_})
+        evals += 1
+        for pb in sr["problems"][:1]:
+            failures.append({"input": {"metric": mname_, "case": pb}, "problems": [str(pb)[:300]], "replay_kind": "c03.scorer"})
     n = 40 if tier == "quick" else 400
     for it_no in range(n):
         nd = rng.choice([1, 2, 3])
